@@ -591,3 +591,59 @@ def _i64_cmp(op):
 
 for _op in ('lt', 'le', 'gt', 'ge'):
     REG['<i64 as PartialOrd>::' + _op] = _i64_cmp(_op)
+
+
+@nat('<* as ReadBytesExt>::read_uint')
+def read_uint_be(ex, rr, nbytes):
+    """byteorder::ReadBytesExt::read_uint::<BigEndian>(nbytes): nbytes (1..=8) bytes, most significant first; panics for other counts"""
+    n = D(ex, nbytes)
+    if is_sym(n):
+        n = ex.concretize_or_above(n, 9)
+    if n < 1 or n > 8:
+        raise Panic('byteorder read_uint: nbytes out of range (%d)' % n)
+    holder = rr
+    cur = ex.read(holder)
+    sl = ex.read(cur) if isinstance(cur, Ref) else cur
+    if isinstance(sl, VecV):
+        sl = SliceV(sl, 0, len(sl.items))
+    if is_sym(sl.hi) or is_sym(sl.lo):
+        enough = simp_bool(z3.ULE(bv(sl.lo, 64) + n, bv(sl.hi, 64)))
+    else:
+        enough = sl.lo + n <= sl.hi
+    if not ex.branch(enough):
+        ex.write(holder, Ref(Cell(SliceV(sl.vec, sl.hi, sl.hi))))
+        return ERR(io_err('UnexpectedEof'))
+    val = 0
+    for i in range(n):
+        b = sl.vec.items[sl.lo + i]
+        if is_sym(b) or is_sym(val):
+            val = (bv(val, 64) << 8) | z3.ZeroExt(56, bv(b, 8))
+        else:
+            val = (val << 8) | b
+    ex.write(holder, Ref(Cell(SliceV(sl.vec, sl.lo + n, sl.hi))))
+    return OK(val)
+
+
+@nat('<Range as Iterator>::step_by', '<* as Iterator>::step_by')
+def range_step_by(ex, it, step):
+    """StepBy over an integer range with concrete bounds: materialised"""
+    r = D(ex, it)
+    k = D(ex, step)
+    if not (isinstance(r, Adt) and r.name == 'Range') or is_sym(k):
+        raise Unsupported('step_by on %r' % (r,))
+    lo, hi = D(ex, r.fields[0]), D(ex, r.fields[1])
+    if is_sym(lo):
+        lo = ex.concretize_or_above(lo, 129)
+    if is_sym(hi):
+        hi = ex.concretize_or_above(hi, 129)
+    if k == 0:
+        raise Panic('step_by(0)')
+    return Adt('ListIter', 0, [list(range(lo, hi, k)), 0])
+
+
+@nat('<* as Iterator>::rev', '<Iter as Iterator>::rev', '<Chars as Iterator>::rev')
+def iter_rev_any(ex, it):
+    """Iterator::rev; a materialised list iterator is reversed in place of wrapping it"""
+    if isinstance(it, Adt) and it.name == 'ListIter':
+        return Adt('ListIter', 0, [list(reversed(it.fields[0][it.fields[1]:])), 0])
+    return Adt('Rev', 0, [it])
